@@ -43,8 +43,15 @@ impl Event {
                 data
             }
         };
+        let mut wrote_data = false;
         for line in data.lines() {
             write!(buf, "data: {line}\n")?;
+            wrote_data = true;
+        }
+        if !wrote_data {
+            // Empty data.  Write an empty data field so the event is never zero bytes long.
+            // The body reader treats a zero-length read as the end of the stream.
+            write!(buf, "data: \n")?;
         }
         Ok(original_buf_len - buf.len())
     }
@@ -58,8 +65,13 @@ impl Event {
                 data
             }
         };
+        let mut wrote_data = false;
         for line in data.lines() {
             write!(buf, "data: {line}\n").unwrap();
+            wrote_data = true;
+        }
+        if !wrote_data {
+            write!(buf, "data: \n").unwrap();
         }
     }
 }
